@@ -225,6 +225,9 @@ pub fn history(seed: u64, idx: u64) -> Case {
                             tokio::time::sleep(Duration::from_micros(250)).await;
                         }
                         log.push(format!("server closed conn {}", k));
+                    } else if rng.chance(1, 5) {
+                        st.lock().unwrap().refuse_unwatch = true;
+                        log.push(format!("next UNWATCH on conn {} is refused", k));
                     } else {
                         st.lock().unwrap().next_ping = Some(f);
                         log.push(format!("next PING on conn {} gets {:?}", k, f));
